@@ -113,6 +113,100 @@ example : Line_Target { Cmd := lit "CTCP", Nick := lit "nk", Args := [lit "X"] }
 example : Line_Target { Cmd := lit "JOIN", Nick := lit "nk", Args := [lit "a", lit "b"] } = .ok (lit "a") := by decide
 example : Line_Target { Cmd := [], Nick := lit "nk" } = .ok [] := by decide
 
+/-! ## v2: command methods of `*Conn` (client/commands.go)
+
+The expected queues are what `client.VerifCapture(conn, func(){ conn.Join("#c", "k") })` returned for a
+`client.Client(cfg)` with the given `SplitLen` and the default `QuitMessage` ("GoBye!"); the text below was
+printed by a Go program (scratch/smokego2), not typed.  The result is the whole new `Conn`: config untouched, the
+lines appended to `out`. -/
+def c0 : Conn := { cfg := { SplitLen := 450, QuitMessage := lit "GoBye!" } }
+def c20 : Conn := { cfg := { SplitLen := 20, QuitMessage := lit "GoBye!" } }
+def c5 : Conn := { cfg := { SplitLen := 5, QuitMessage := lit "GoBye!" } }   -- < 13: splitMessage uses 450
+
+example : Conn_Raw c0 (lit "PRIVMSG #c :hi\x0d\x0aQUIT :injected") = .ok { c0 with out := [lit "PRIVMSG #c :hi"] } := by decide
+example : Conn_Raw c0 [] = .ok { c0 with out := [[]] } := by decide
+example : Conn_Pass c0 (lit "secret") = .ok { c0 with out := [lit "PASS secret"] } := by decide
+example : Conn_Nick c0 (lit "me\x0aOPER x y") = .ok { c0 with out := [lit "NICK me"] } := by decide
+example : Conn_User c0 (lit "id") (lit "Real Name") = .ok { c0 with out := [lit "USER id 12 * :Real Name"] } := by decide
+example : Conn_Join c0 (lit "#c") [] = .ok { c0 with out := [lit "JOIN #c"] } := by decide
+example : Conn_Join c0 (lit "#c") [lit "k"] = .ok { c0 with out := [lit "JOIN #c k"] } := by decide
+example : Conn_Join c0 (lit "#c") [lit "k", lit "ignored"] = .ok { c0 with out := [lit "JOIN #c k"] } := by decide
+example : Conn_Part c0 (lit "#c") [] = .ok { c0 with out := [lit "PART #c"] } := by decide
+example : Conn_Part c0 (lit "#c") [lit "bye", lit "now"] = .ok { c0 with out := [lit "PART #c :bye now"] } := by decide
+example : Conn_Kick c0 (lit "#c") (lit "bob") [] = .ok { c0 with out := [lit "KICK #c bob"] } := by decide
+example : Conn_Kick c0 (lit "#c") (lit "bob") [lit "go", lit "away"] = .ok { c0 with out := [lit "KICK #c bob :go away"] } := by decide
+example : Conn_Quit c0 [] = .ok { c0 with out := [lit "QUIT :GoBye!"] } := by decide
+example : Conn_Quit c0 [lit "so", lit "long"] = .ok { c0 with out := [lit "QUIT :so long"] } := by decide
+example : Conn_Quit c0 [[]] = .ok { c0 with out := [lit "QUIT :GoBye!"] } := by decide
+example : Conn_Whois c0 (lit "bob") = .ok { c0 with out := [lit "WHOIS bob"] } := by decide
+example : Conn_Who c0 (lit "bob") = .ok { c0 with out := [lit "WHO bob"] } := by decide
+example : Conn_Privmsg c0 (lit "#c") (lit "hello there") = .ok { c0 with out := [lit "PRIVMSG #c :hello there"] } := by decide
+example : Conn_Privmsg c20 (lit "#c") (lit "one two. three four five six") = .ok { c20 with out := [lit "PRIVMSG #c :one two. ...", lit "PRIVMSG #c :three four five six"] } := by decide
+example : Conn_Privmsg c5 (lit "#c") (lit "one two. three four five six") = .ok { c5 with out := [lit "PRIVMSG #c :one two. three four five six"] } := by decide
+example : Conn_Notice c20 (lit "bob") (lit "aaaaaaaaaaaaaaaaaaaaaaaaa") = .ok { c20 with out := [lit "NOTICE bob :aaaaaaaaaaaaaaaaa...", lit "NOTICE bob :aaaaaaaa"] } := by decide
+example : Conn_Notice c0 (lit "bob") [] = .ok { c0 with out := [lit "NOTICE bob :"] } := by decide
+example : Conn_Ctcp ext c0 (lit "bob") (lit "ping") [lit "1", lit "2"] = .ok { c0 with out := [lit "PRIVMSG bob :\x01PING 1 2\x01"] } := by decide
+example : Conn_Ctcp ext c0 (lit "bob") (lit "time") [] = .ok { c0 with out := [lit "PRIVMSG bob :\x01TIME\x01"] } := by decide
+example : Conn_Ctcp ext c20 (lit "bob") (lit "x") [lit "one two. three four five six"] = .ok { c20 with out := [lit "PRIVMSG bob :\x01X one two. ...\x01", lit "PRIVMSG bob :\x01X three four five six\x01"] } := by decide
+example : Conn_CtcpReply ext c0 (lit "bob") (lit "version") [lit "goirc"] = .ok { c0 with out := [lit "NOTICE bob :\x01VERSION goirc\x01"] } := by decide
+example : Conn_Version ext c0 (lit "bob") = .ok { c0 with out := [lit "PRIVMSG bob :\x01VERSION\x01"] } := by decide
+example : Conn_Action ext c0 (lit "#c") (lit "waves") = .ok { c0 with out := [lit "PRIVMSG #c :\x01ACTION waves\x01"] } := by decide
+example : Conn_Action ext c0 (lit "#c") [] = .ok { c0 with out := [lit "PRIVMSG #c :\x01ACTION\x01"] } := by decide
+example : Conn_Topic c0 (lit "#c") [] = .ok { c0 with out := [lit "TOPIC #c"] } := by decide
+example : Conn_Topic c0 (lit "#c") [lit "new", lit "topic"] = .ok { c0 with out := [lit "TOPIC #c :new topic"] } := by decide
+example : Conn_Mode c0 (lit "#c") [] = .ok { c0 with out := [lit "MODE #c"] } := by decide
+example : Conn_Mode c0 (lit "#c") [lit "+nsk", lit "key"] = .ok { c0 with out := [lit "MODE #c +nsk key"] } := by decide
+example : Conn_Away c0 [] = .ok { c0 with out := [lit "AWAY"] } := by decide
+example : Conn_Away c0 [lit "gone", lit "fishing"] = .ok { c0 with out := [lit "AWAY :gone fishing"] } := by decide
+example : Conn_Invite c0 (lit "bob") (lit "#c") = .ok { c0 with out := [lit "INVITE bob #c"] } := by decide
+example : Conn_Oper c0 (lit "u") (lit "p") = .ok { c0 with out := [lit "OPER u p"] } := by decide
+example : Conn_VHost c0 (lit "u") (lit "p") = .ok { c0 with out := [lit "VHOST u p"] } := by decide
+example : Conn_Ping c0 (lit "123") = .ok { c0 with out := [lit "PING :123"] } := by decide
+example : Conn_Pong c0 (lit "123") = .ok { c0 with out := [lit "PONG :123"] } := by decide
+example : Conn_Cap c0 (lit "LS") [] = .ok { c0 with out := [lit "CAP LS"] } := by decide
+example : Conn_Cap c0 (lit "REQ") [lit "sasl", lit "multi-prefix"] = .ok { c0 with out := [lit "CAP REQ :sasl multi-prefix"] } := by decide
+-- 120 capabilities do not fit into one 450-byte line: splitArgs cuts after the 73rd
+set_option maxRecDepth 20000 in
+example : Conn_Cap c0 (lit "REQ") (List.replicate 120 (lit "capab")) = .ok { c0 with out := [lit "CAP REQ :" ++ join (lit " ") (List.replicate 73 (lit "capab")), lit "CAP REQ :" ++ join (lit " ") (List.replicate 47 (lit "capab"))] } := by decide
+example : Conn_Authenticate c0 (lit "+") = .ok { c0 with out := [lit "AUTHENTICATE +"] } := by decide
+
+-- the queue is FIFO across calls: conn.Nick("a"); conn.Join("#c"); conn.Quit()
+example : (do let c ← Conn_Nick c0 (lit "a"); let c ← Conn_Join c (lit "#c") []; Conn_Quit c [])
+    = .ok { c0 with out := [lit "NICK a", lit "JOIN #c", lit "QUIT :GoBye!"] } := by decide
+
+/-! ## v2: `DefaultNewNick` (client/connection.go) -/
+example : DefaultNewNick [] = .ok (lit "_") := by decide
+example : DefaultNewNick (lit "nick") = .ok (lit "nicl") := by decide
+example : DefaultNewNick (lit "nick9") = .ok (lit "nick0") := by decide
+example : DefaultNewNick (lit "nick0") = .ok (lit "nick1") := by decide
+example : DefaultNewNick (lit "nickZ") = .ok (lit "nick[") := by decide
+example : DefaultNewNick (lit "nick}") = .ok (lit "nickA") := by decide
+example : DefaultNewNick (lit "nick|") = .ok (lit "nick}") := by decide
+example : DefaultNewNick (lit "nick~") = .ok (lit "nick_") := by decide
+example : DefaultNewNick (lit "n!") = .ok (lit "n_") := by decide
+example : DefaultNewNick (lit "\xc3\xa9") = .ok (lit "\xc3_") := by decide
+-- string(b) for a byte is the UTF-8 encoding of code point b: string(rune(0xe9)) = "\xc3\xa9"
+example : Rt.byteString 0x41 = [0x41] := by decide
+example : Rt.byteString 0xe9 = [0xc3, 0xa9] := by decide
+example : Rt.byteString 0x80 = [0xc2, 0x80] := by decide
+
+/-! ## v2: `capSet` (client/handlers.go); the receiver is threaded through `Add` / `Clear`
+Go (hook added to a scratch copy of the repo): c := capabilitySet(); c.Add("sasl", "-away", "x");
+Has("sasl"), Has("away"), Has("nope"), Size() = true, false, false, 3; c.Add("-sasl"); Has("sasl"), Size() = false, 3;
+c.Clear(); Size() = 0.  `(&capSet{}).Add("x")` panics: assignment to entry in nil map. -/
+def caps1 : capSet := { caps := some [(lit "sasl", true), (lit "away", false), (lit "x", true)] }
+example : capSet_Add { caps := some [] } [lit "sasl", lit "-away", lit "x"] = .ok caps1 := by decide
+example : capSet_Has caps1 (lit "sasl") = .ok true := by decide
+example : capSet_Has caps1 (lit "away") = .ok false := by decide
+example : capSet_Has caps1 (lit "nope") = .ok false := by decide
+example : capSet_Size caps1 = .ok 3 := by decide
+example : capSet_Add caps1 [lit "-sasl"] = .ok { caps := some [(lit "sasl", false), (lit "away", false), (lit "x", true)] } := by decide
+example : capSet_Clear caps1 = .ok { caps := some [] } := by decide
+example : capSet_Size { caps := some [] } = .ok 0 := by decide
+example : capSet_Add {} [lit "x"] = .error .nilMap := by decide
+example : capSet_Add {} [] = .ok {} := by decide
+example : capSet_Has {} (lit "x") = .ok false := by decide
+
 /-! No input makes the CURRENT Go source of these functions panic (all indexing is guarded), so there is
 no `.error` example on a generated def here.  REPORT.md lists the edited variants of the source
 (guards removed, statements swapped) on which Go panics and the regenerated defs give the same `.error`. -/
